@@ -160,3 +160,132 @@ def check(chk, tier):
     chk.extra["printer_model_behaviours_replayed"] = n
     chk.extra["printer_model_behaviours_with_the_named_deviation"] = nrisky
     chk.extra["printer_model_behaviours_with_drift"] = nd
+
+
+# ---- the HTML printer (spec/TermHtml.tla) ------------------------------------------------------------------------
+CSS = {(1, 1): "color: red;", (1, 2): "color: blue;", (2, 1): "background-color: red;", (2, 2): "background-color: green;",
+       (3, 1): "font-weight: bold; opacity: 1.0;", (3, 2): "opacity: 0.6; font-weight: normal;"}
+
+
+def generate_html(num, maxops, depth=3, salt=0):
+    cfg = ("SPECIFICATION GenSpec\nCONSTANTS Values = {1, 2} MaxDepth = %d MaxOps = %d\nINVARIANT Emit\nCHECK_DEADLOCK FALSE\n"
+           % (depth, maxops))
+    res = tlc.run_tlc("TermHtmlGen", cfg, workers=1, timeout=900, simulate="num=%d" % num, depth=maxops + 1, seed=seed() + 43 + salt,
+                      name="TermHtmlGen")
+    seen, out = set(), []
+    for x in res.printed:
+        if isinstance(x, dict) and "hist" in x:
+            k = json.dumps(x, sort_keys=True)
+            if k not in seen:
+                seen.add(k)
+                out.append(x)
+    if not out:
+        raise MachineryError("TermHtmlGen produced no behaviour")
+    return out, res
+
+
+def html_tokens(text):
+    """The tokens of what an HTMLPrinter wrote after its page header (end tags of both kinds of span are one token)."""
+    toks = []
+    i = 0
+    pat = re.compile(r'<span style="([^"]*)">|</span>|<br />|\n *')
+    while i < len(text):
+        m = pat.match(text, i)
+        if m:
+            t = m.group(0)
+            if t.startswith("<span"):
+                toks.append("strike" if m.group(1).startswith("text-decoration") else "open:" + m.group(1))
+            elif t == "</span>":
+                toks.append("end")
+            elif t == "<br />":
+                toks.append("br")
+            i = m.end()
+            continue
+        toks.append("ch:" + text[i])
+        i += 1
+    return toks
+
+
+def compare_html(beh):
+    from graphtage.printer import HTMLPrinter
+    from harness.cli import _Stream, _prepare
+    _prepare()
+    codes = _codes()
+    out = _Stream()
+    p = HTMLPrinter(out, ansi_color=True, quiet=True)
+    start = len(out.getvalue())
+    stack, mstack = [], []
+    drift = []
+    try:
+        for h in beh["hist"]:
+            op = h["op"]
+            if op == "enter":
+                c = None
+                for a, v in h["chain"]:
+                    src = p if c is None else c
+                    c = (src.bright() if v == 1 else src.dim()) if a == 3 else (src.color if a == 1 else src.background)(codes[(a, v)])
+                c.__enter__()
+                stack.append(c)
+            elif op == "exit":
+                stack.pop().__exit__(None, None, None)
+            elif op == "mark":
+                c = p.strike()
+                c.__enter__()
+                mstack.append(c)
+            elif op == "unmark":
+                mstack.pop().__exit__(None, None, None)
+            elif op == "write":
+                p.write(h["ch"])
+            elif op == "newline":
+                p.newline()
+        got = html_tokens(out.getvalue()[start:])
+        want = []
+        for t in beh["out"]:
+            k = t["k"]
+            want.append("open:" + CSS[(t["a"], t["v"])] if k == "open" else "end" if k in ("close", "unstrike") else
+                        "ch:" + t["c"] if k == "ch" else k)
+        # blanks are indentation (the page body is three levels deep; the written characters are letters): not compared
+        want = [w for w in want if not w.startswith("ind")]
+        got = [g for g in got if g != "ch: "]
+        if got != want:
+            drift.append("the HTML printer writes %s, the model %s (operations %s)" % (
+                got, want, [(x["op"], x["chain"] or x["ch"]) for x in beh["hist"]]))
+    except MachineryError:
+        raise
+    except Exception as ex:
+        drift.append("the real HTMLPrinter raised %s: %s (operations %s)" % (type(ex).__name__, str(ex)[:80],
+                                                                            [(x["op"], x["chain"] or x["ch"]) for x in beh["hist"]]))
+    finally:
+        for c in reversed(stack):
+            try:
+                c.__exit__(None, None, None)
+            except Exception:
+                pass
+    return drift
+
+
+def check_html(chk, tier):
+    """Model check + binding of TermHtml.tla; never fatal (a failure of this part is a note)."""
+    try:
+        cfg = "SPECIFICATION Spec\nCONSTANTS Values = {1, 2} MaxDepth = 2 MaxOps = %d\nINVARIANT Balanced\nCHECK_DEADLOCK FALSE\n" % (3 if tier == "quick" else 4)
+        res = tlc.run_tlc("TermHtml", cfg, workers=8, timeout=900, name="TermHtml-mc")
+        if not res.completed:
+            chk.drift.append("TermHtml.tla violates Balanced on the model (lead only): %s" % (res.invariant_violated or res.property_violated))
+        chk.add_tlc(res, "TermHtml", "L2 model of the HTML printer's span / strike / line-break output: Balanced (outside the named deviation)")
+        n = nd = nlost = 0
+        for ops, num in (((5, 300), (8, 300)) if tier == "quick" else ((5, 2000), (8, 3000), (12, 2000))):
+            behs, res = generate_html(num, ops)
+            chk.add_tlc(res, "TermHtmlGen", "simulation of behaviours of the HTML printer model (%d operations)" % ops)
+            for b in behs:
+                d = compare_html(b)
+                n += 1
+                nlost += bool(b["lost"])
+                if d:
+                    nd += 1
+                    if len(chk.drift) < 10:
+                        chk.drift.append("TermHtml.tla: " + d[0])
+        chk.extra["html_printer_model_behaviours_replayed"] = n
+        chk.extra["html_printer_model_behaviours_with_the_named_deviation"] = nlost
+        chk.extra["html_printer_model_behaviours_with_drift"] = nd
+    except MachineryError as ex:
+        chk.notes.append("TermHtml.tla part did not finish: %s" % str(ex)[:200])
